@@ -287,7 +287,7 @@ def _mentions_symbol(p):
     if o.kind == 'returndata' and any(not isc(b) for b in o.data):
         return True
     for r in p.receipts:
-        if r[0] == 'logd' and any(not isc(b) for b in r[3]):
+        if r[0] in ('logd', 'smo') and (not isc(r[2]) or any(not isc(b) for b in r[3])):
             return True
         if r[0] == 'log' and any(not isc(b) for b in r[1:]):
             return True
